@@ -613,8 +613,8 @@ var fourSpaces = []byte{' ', ' ', ' ', ' '}
 func markdownCodeBlockEscape(w strWriter, s string, spaces bool) error {
 	last := 0
 	for i := 0; i < len(s); i++ {
-		if s[i] == '\n' {
-			if i+1 < len(s) && s[i+1] == '\r' {
+		if s[i] == '\n' || s[i] == '\r' {
+			if s[i] == '\r' && i+1 < len(s) && s[i+1] == '\n' {
 				i++
 			}
 			_, err := w.WriteString(s[last : i+1])
